@@ -153,6 +153,14 @@ fn emit(out: &mut String, module: &str, market: bool, shapes: &[Shape]) {
                 Ty::Builtin => "Builtin".to_string(),
                 Ty::Nested(j) => format!("S{}", j),
             };
+            // some fields carry doc comments / attributes (they are attributes to the derive macro)
+            let h = nm.bytes().fold(k as u64 * 31 + 7, |a, b| a.wrapping_mul(131).wrapping_add(b as u64));
+            match h % 5 {
+                0 => writeln!(out, "        /// member `{}` of shape {}", nm.trim_start_matches("r#"), k).unwrap(),
+                1 => writeln!(out, "        #[allow(dead_code)]").unwrap(),
+                2 if h % 3 == 0 => writeln!(out, "        /// documented\n        #[allow(unused)]").unwrap(),
+                _ => {}
+            }
             writeln!(out, "        pub {}: {},", nm, t).unwrap();
         }
         writeln!(out, "    }}").unwrap();
